@@ -424,7 +424,7 @@ fn ranges_for(s: &Subject) -> Vec<Rng> {
 pub fn run(tier: &str) -> i32 {
     let rep = Report::new("C20", tier, "exploration");
     let thorough = rep.thorough();
-    rep.rule("library-written archives (small, alternating duplicates, leaf spill, big metadata, tiles above 1 MiB and above 16 MiB; 4 compressions), a foreign archive with one leaf directory of 20 000 entries (stored form far above 16 KiB) and the foreign product of C03 (section permutations so that tile data directly follows each directory/metadata section, gaps filled with a sentinel, depth 1-3, 4 compressions), opened in full and with three range filters through the sync and the async reader over a recording stream, followed by a lookup of EVERY addressed id and of absent neighbours; oracle on the bytes returned by the stream: open touches only header, metadata, root and leaf sections and never the tile-data section; a lookup's returned ranges unite to exactly the tile's range; absent ids read nothing; additionally sessions of lookups with ONE transient stream failure at every call index (optionally after a 1- or 2-byte short read): every later Ok lookup returns the tile and reads inside its range; and async sessions in which a lookup future is dropped at a Pending answer and the lookup is retried; non-trivial = archives with >= 1 tile");
+    rep.rule("library-written archives (small, alternating duplicates, leaf spill, big metadata, tiles above 1 MiB and above 16 MiB; 4 compressions), a foreign archive with one leaf directory of 20 000 entries (stored form far above 16 KiB) and the foreign product of C03 (section permutations so that tile data directly follows each directory/metadata section, gaps filled with a sentinel, depth 1-3, 4 compressions), opened in full and with three range filters through the sync and the async reader over a recording stream, followed by a lookup of EVERY addressed id and of absent neighbours; oracle on the bytes returned by the stream: open touches only header, metadata, root and leaf sections and never the tile-data section; a lookup's returned ranges unite to exactly the tile's range; absent ids read nothing; additionally opens of archives whose root directory (directly in front of the tile data) is cut short by 1-2 bytes or announces one entry too many: no byte of the tile data may be fetched; sessions of lookups with ONE transient stream failure at every call index (optionally after a 1- or 2-byte short read): every later Ok lookup returns the tile and reads inside its range; and async sessions in which a lookup future is dropped at a Pending answer and the lookup is retried; non-trivial = archives with >= 1 tile");
     rep.assume("how often or in how many calls a section is read is not constrained; only which bytes are returned to the library");
     let subs = subjects(thorough);
     let res: Vec<(usize, Api, Rng, Vec<(String, String)>)> = subs
@@ -451,6 +451,76 @@ pub fn run(tier: &str) -> i32 {
     for (i, api, r, bad) in res {
         for (k, d) in bad.into_iter().take(4) {
             rep.violation(format!("{k}/{}", api.name()), format!("[{}] {d}", subs[i].name), json!({"kind":"lazy","subject":subs[i].name,"api":api.name(),"archive":subs[i].case,"range":format!("{r:?}")}));
+        }
+    }
+    // damaged directories in front of the tile data: the root directory lacks its last 1 or 2 bytes (the rest of the file moved up, offsets adjusted), or
+    // its entry count announces one entry more than the section holds. Whatever the open makes of it (the unchanged
+    // library refuses), it must not fetch a byte of the tile-data section, which starts right behind the directory.
+    {
+        let mut cases: Vec<(String, Vec<u8>, (u64, u64), Value)> = Vec::new();
+        for spec in foreign::product(false).into_iter().filter(|s| s.order >= 4 && s.gap == 0 && !s.root_gap && s.shape == foreign::Shape::RootOnly && s.n >= 3 && s.meta == 2 && s.cv == 0 && s.offs == foreign::Offs::Contiguous && s.run == 1) {
+            let f = foreign::build(&spec);
+            let h = f.header.clone();
+            let data = (h.data_offset, h.data_offset + h.data_length);
+            for cut in [1u64, 2] {
+                // the last `cut` bytes of the root directory are missing from the file: everything behind it (the tile
+                // data first) moves up, all offsets are adjusted - a consistent archive whose directory ends too early
+                if h.root_length > cut && h.root_offset == 127 {
+                    let mut h2 = h.clone();
+                    h2.root_length -= cut;
+                    h2.meta_offset -= cut;
+                    h2.leaf_offset -= cut;
+                    h2.data_offset -= cut;
+                    let end = (h.root_offset + h.root_length) as usize;
+                    let mut b = f.bytes[..end - cut as usize].to_vec();
+                    b.extend_from_slice(&f.bytes[end..]);
+                    b[..127].copy_from_slice(&h2.encode());
+                    let data = (h2.data_offset, h2.data_offset + h2.data_length);
+                    let mut case = spec.to_json();
+                    case["damage"] = json!(format!("root-length-minus-{cut}"));
+                    cases.push((format!("foreign n={} comp={} root length -{cut}", spec.n, spec.comp), b, data, case));
+                }
+            }
+            if spec.comp == 1 {
+                let mut b = f.bytes.clone();
+                b[h.root_offset as usize] += 1;
+                let mut case = spec.to_json();
+                case["damage"] = json!("entry-count-plus-1");
+                cases.push((format!("foreign n={} comp=1 entry count +1", spec.n), b, data, case));
+            }
+        }
+        let res: Vec<(usize, Api, Vec<(String, String)>)> = cases
+            .par_iter()
+            .enumerate()
+            .flat_map_iter(|(i, (_, bytes, data, _))| {
+                APIS.into_iter()
+                    .map(|api| {
+                        let hd = Handle::new(bytes.clone(), Box::new(DefaultChooser));
+                        let mut bad = Vec::new();
+                        let r = catch(|| match api {
+                            Api::Sync => PMTiles::from_reader(hd.sync()).map(|p| p.num_tiles()).map_err(|e| e.to_string()),
+                            Api::Async => block_on(PMTiles::from_async_reader(hd.asyn())).map(|p| p.num_tiles()).map_err(|e| e.to_string()),
+                        });
+                        if let Err(p) = &r {
+                            bad.push(("damaged-directory-panic".to_string(), p.clone()));
+                        }
+                        for rr in read_ranges(&hd.log()) {
+                            if rr.0 < data.1 && data.0 < rr.1 && data.1 > data.0 {
+                                bad.push(("damaged-directory-open-reads-tile-data".to_string(), format!("opening (result {:?}) read bytes [{},{}) of the tile-data section [{},{})", r.as_ref().map(|x| x.as_ref().map_err(|e| e.chars().take(60).collect::<String>())), rr.0.max(data.0), rr.1.min(data.1), data.0, data.1)));
+                                break;
+                            }
+                        }
+                        (i, api, bad)
+                    })
+                    .collect::<Vec<_>>()
+            })
+            .collect();
+        rep.eval(res.len() as u64);
+        rep.count("damaged_directory_opens", res.len() as u64);
+        for (i, api, bad) in res {
+            for (k, d) in bad.into_iter().take(2) {
+                rep.violation(format!("{k}/{}", api.name()), format!("[{}] {d}", cases[i].0), json!({"kind":"damaged-directory","api":api.name(),"spec":cases[i].3}));
+            }
         }
     }
     // transient failures during lookups (small subjects only: the session is replayed once per call index)
